@@ -17,14 +17,46 @@ func (vc *VC) loopSpec(st *State, fr *Frame, n int) *LoopSpec {
 	if !fr.top {
 		return nil
 	}
-	blk := vc.blk
-	if ls, ok := blk.Loops[n]; ok {
+	if st.ctx != nil && st.ctx.blk != nil {
+		if ls, ok := st.ctx.blk.Loops[n]; ok {
+			return ls
+		}
+	}
+	if ls, ok := vc.blk.Loops[n]; ok {
 		return ls
 	}
 	return nil
 }
 
 func phiName(p *ssa.Phi) string { return p.Comment }
+
+func (vc *VC) localsEnv(st *State, fr *Frame) *Env {
+	env := newEnv(nil)
+	if fr == nil || !fr.top {
+		return env
+	}
+	for n, nl := range fr.names {
+		if nl.isAddr {
+			et := deref(nl.ty)
+			vc.noFacts++
+			env.bind(n, vc.loadAt(st, nl.v, et), et)
+			vc.noFacts--
+		} else {
+			env.bind(n, nl.v, nl.ty)
+		}
+	}
+	return env
+}
+
+func (vc *VC) loopEnvL(st *State, fr *Frame, phis []*ssa.Phi, vals []T) *Env {
+	env := vc.localsEnv(st, fr)
+	for i, p := range phis {
+		if n := phiName(p); n != "" {
+			env.bind(n, vals[i], p.Type())
+		}
+	}
+	return env
+}
 
 func (vc *VC) loopEnv(phis []*ssa.Phi, vals []T) *Env {
 	env := newEnv(nil)
@@ -49,10 +81,10 @@ func (vc *VC) loopHead(st *State, fr *Frame, h, pred *ssa.BasicBlock, back bool,
 				break
 			}
 		}
-		env := vc.loopEnv(phis, vals)
+		env := vc.loopEnvL(st, fr, phis, vals)
 		if spec != nil {
 			for i, c := range spec.Invariants {
-				t, err := vc.evalClause(st.ctx, st, vc.entry, c.Text, env)
+				t, err := vc.evalClause(st.ctx, st, st.ctx.old, c.Text, env)
 				if err != nil {
 					vc.fail(fmt.Errorf("%s:%d: %v", c.File, c.Line, err))
 					return
@@ -60,7 +92,7 @@ func (vc *VC) loopHead(st *State, fr *Frame, h, pred *ssa.BasicBlock, back bool,
 				vc.oblige(st, fmt.Sprintf("invariant.step.loop%d", n), labelOr(c.Label, i+1), t.S, &c, "")
 			}
 			if spec.Decreases != nil && lc != nil {
-				t, err := vc.evalClause(st.ctx, st, vc.entry, spec.Decreases.Text, env)
+				t, err := vc.evalClause(st.ctx, st, st.ctx.old, spec.Decreases.Text, env)
 				if err != nil {
 					vc.fail(fmt.Errorf("%s:%d: %v", spec.Decreases.File, spec.Decreases.Line, err))
 					return
@@ -68,17 +100,17 @@ func (vc *VC) loopHead(st *State, fr *Frame, h, pred *ssa.BasicBlock, back bool,
 				vc.oblige(st, fmt.Sprintf("decreases.loop%d", n), "", and(app("<=", "0", lc.dec0), app("<", t.S, lc.dec0)), spec.Decreases, "")
 			}
 		}
-		if st.ctx.blk.Kind == "opcase" && fr.top {
+		if st.ctx.blk.Kind == "opcase" && fr.top && n == 1 {
 			vc.opcaseEnd(st, fr, nil)
 		}
 		vc.pathEnd()
 		return
 	}
 	// entry edge
-	env := vc.loopEnv(phis, vals)
+	env := vc.loopEnvL(st, fr, phis, vals)
 	if spec != nil {
 		for i, c := range spec.Invariants {
-			t, err := vc.evalClause(st.ctx, st, vc.entry, c.Text, env)
+			t, err := vc.evalClause(st.ctx, st, st.ctx.old, c.Text, env)
 			if err != nil {
 				vc.fail(fmt.Errorf("%s:%d: %v", c.File, c.Line, err))
 				return
@@ -115,10 +147,10 @@ func (vc *VC) loopHead(st *State, fr *Frame, h, pred *ssa.BasicBlock, back bool,
 		st.callsA = vc.fresh("callsA", "(Array Int Int)").S
 		st.callsR = vc.fresh("callsR", "(Array Int Int)").S
 	}
-	env = vc.loopEnv(phis, hv)
+	env = vc.loopEnvL(st, fr, phis, hv)
 	if spec != nil {
 		for _, c := range spec.Invariants {
-			t, err := vc.evalClause(st.ctx, st, vc.entry, c.Text, env)
+			t, err := vc.evalClause(st.ctx, st, st.ctx.old, c.Text, env)
 			if err != nil {
 				vc.fail(fmt.Errorf("%s:%d: %v", c.File, c.Line, err))
 				return
@@ -155,7 +187,7 @@ func (vc *VC) loopHead(st *State, fr *Frame, h, pred *ssa.BasicBlock, back bool,
 	}
 	lc := loopCtx{head: h}
 	if spec != nil && spec.Decreases != nil {
-		t, err := vc.evalClause(st.ctx, st, vc.entry, spec.Decreases.Text, env)
+		t, err := vc.evalClause(st.ctx, st, st.ctx.old, spec.Decreases.Text, env)
 		if err != nil {
 			vc.fail(fmt.Errorf("%s:%d: %v", spec.Decreases.File, spec.Decreases.Line, err))
 			return
@@ -221,14 +253,14 @@ func (vc *VC) opcaseEnd(st *State, fr *Frame, res []T) {
 	oc := st.ctx.blk
 	var env *Env
 	if res != nil {
-		env = newEnv(nil)
+		env = vc.localsEnv(st, fr)
 		sig := vc.fn.Signature
 		if sig.Results().Len() == 1 && len(res) == 1 {
 			env.bind("result", res[0], sig.Results().At(0).Type())
 		}
 		env.bind("returned", B(true), types.Typ[types.Bool])
 	} else {
-		env = newEnv(nil)
+		env = vc.localsEnv(st, fr)
 		env.bind("returned", B(false), types.Typ[types.Bool])
 	}
 	for i, c := range oc.Ensures {
